@@ -7,12 +7,36 @@
    types.Cstrcmp(a,b) == 0 and types.Cstrcasecmp(a,b) == 0 on two USER_ID_SZ-byte arrays are re-specified as
    equality of the (lower-cased) bytes before the first NUL (those functions are the subject of C18). *)
 From Verif Require Import Base.Common Base.TMap Gen.Consts_default.
+From Verif Require Gen.Consts_docker.
 
-Definition MAXU : Z := ptttype.MAX_USERS.
-Definition HASHN : Z := 2 ^ ptttype.HASH_BITS.
+(* The constants the index depends on. The model and every theorem are parametric in them (Section Cfg below, [Context {K : consts}]); the two build
+   configurations of the repository instantiate them from the regenerated Gen/Consts_default.v (MAX_USERS 50) and Gen/Consts_docker.v (-tags docker,
+   the production build: MAX_USERS 2 000 000 > PRE_ALLOCATED_USERS 1000 and > 2^HASH_BITS).
+   FUEL_MAXU / FUEL_LOADER are Z.to_nat MAXU and its successor (consts_ok in Proofs/C04_chain.v); they are fields so that the extracted program builds
+   these unary numbers once and not in every call. *)
+Class consts : Type := mkconsts {
+  MAXU : Z;             (* ptttype.MAX_USERS *)
+  HASHBITS : Z;         (* ptttype.HASH_BITS *)
+  PREALLOC : Z;         (* cache.PRE_ALLOCATED_USERS *)
+  SHMVER : Z;           (* cache.SHM_VERSION *)
+  SHMSZ : Z;            (* cache.SHM_RAW_SZ *)
+  FUEL_MAXU : nat;      (* the loops bounded by times < MAX_USERS *)
+  FUEL_LOADER : nat }.  (* the loader's unbounded walks: a cycle-free chain has at most MAX_USERS nodes *)
+Definition K_default : consts :=
+  mkconsts ptttype.MAX_USERS ptttype.HASH_BITS cache.PRE_ALLOCATED_USERS cache.SHM_VERSION cache.SHM_RAW_SZ
+           (Z.to_nat ptttype.MAX_USERS) (S (Z.to_nat ptttype.MAX_USERS)).
+Definition K_docker : consts :=
+  mkconsts Gen.Consts_docker.ptttype.MAX_USERS Gen.Consts_docker.ptttype.HASH_BITS Gen.Consts_docker.cache.PRE_ALLOCATED_USERS
+           Gen.Consts_docker.cache.SHM_VERSION Gen.Consts_docker.cache.SHM_RAW_SZ
+           (Z.to_nat Gen.Consts_docker.ptttype.MAX_USERS) (S (Z.to_nat Gen.Consts_docker.ptttype.MAX_USERS)).
+
+(* identical in both configurations (Proofs/C04.v: consts_shared) *)
 Definition IDSZ : nat := Z.to_nat ptttype.USER_ID_SZ.
 Definition IDLEN : Z := ptttype.IDLEN.
-Definition PREALLOC : Z := cache.PRE_ALLOCATED_USERS.
+
+Section Cfg.
+Context {K : consts}.
+Definition HASHN : Z := 2 ^ HASHBITS.
 
 (* ---------------------------------------------------------------- IDs and their hash *)
 Definition toupper (c : Z) : Z := if (97 <=? c) && (c <=? 122) then c - 32 else c.
@@ -63,8 +87,6 @@ Definition set_link (s : st) (isnext : bool) (p v : Z) : st := if isnext then se
 Definition ERR_ADD : Z := 1.
 Definition ERR_REMOVE : Z := 2.
 Definition ERR_INVALID_UID : Z := 3.
-Definition FUEL_MAXU : nat := Z.to_nat MAXU.          (* the loops bounded by times < MAX_USERS *)
-Definition FUEL_LOADER : nat := S (Z.to_nat MAXU).    (* the loader's unbounded walks: a cycle-free chain has at most MAX_USERS nodes *)
 
 (* ---------------------------------------------------------------- AddToUHash *)
 (* for ; times < MAX_USERS && val != -1; times++ { isNext = true; p = val; val = NextInHash[p] }   None: times >= MAX_USERS *)
@@ -234,8 +256,8 @@ Definition unload (s : st) : st := mkst (head s) (next s) (ids s) 0 0.
 Record segment : Type := mkseg { seg_version : Z; seg_size : Z; seg_body : st }.
 Inductive attach_result : Type := Attached (view : st) | ErrShmVersion | ErrShmSize.
 Definition attach (g : segment) : attach_result :=
-  if negb (seg_version g =? cache.SHM_VERSION) then ErrShmVersion
-  else if negb (seg_size g =? cache.SHM_RAW_SZ) then ErrShmSize
+  if negb (seg_version g =? SHMVER) then ErrShmVersion
+  else if negb (seg_size g =? SHMSZ) then ErrShmSize
   else Attached (seg_body g).
 (* NewSHM on a key whose segment exists already, by a second process: with isCreate = false it is shm.OpenShm; with isCreate = true
    shm.CreateShm gets EEXIST from the IPC_EXCL shmget and retries without it. Either way isNew = false, the header is NOT
@@ -243,7 +265,7 @@ Definition attach (g : segment) : attach_result :=
 Definition new_shm_existing (is_create : bool) (g : segment) : proc * attach_result := (mkproc false, attach g).
 (* NewSHM(isCreate = true) on a key without segment: the kernel hands out zeroed memory, the creator writes the header
    (Version, Size, Number = 0, Loaded = 0): the created-but-not-yet-loaded segment *)
-Definition new_shm_create : proc * segment := (creator, mkseg cache.SHM_VERSION cache.SHM_RAW_SZ reset_st).
+Definition new_shm_create : proc * segment := (creator, mkseg SHMVER SHMSZ reset_st).
 
 (* ---------------------------------------------------------------- observation *)
 (* the chain of bucket h as the harness walks it: slots, then -1 (proper end), -2 (link out of range) or -3 (longer than MAX_USERS) *)
@@ -264,13 +286,17 @@ Definition nonempty_heads (s : st) : Z :=
   then lenZ (filter (fun k => negb (tget (head s) k =? -1)) ks)
   else HASHN - lenZ (filter (fun k => tget (head s) k =? -1) ks).
 
-Record hst : Type := mkh { hs : st; hfile : list (list Z); hbattery : list (list Z); hbuckets : list Z }.
+(* hslots: the slots whose ids the harness prints (op 32; None: all MAX_USERS of them) *)
+Record hst : Type := mkh { hs : st; hfile : list (list Z); hbattery : list (list Z); hbuckets : list Z; hslots : option (list Z) }.
 
 Definition observe (x : hst) : list Z :=
   let s := hs x in
   [number s; loaded s; nonempty_heads s; lenZ (hbuckets x)]
   ++ flat_map (obs_chain s) (hbuckets x)
-  ++ flat_map (fun i => tget (ids s) (Z.of_nat i)) (seq 0 (Z.to_nat MAXU))
+  ++ match hslots x with
+     | None => flat_map (fun i => tget (ids s) (Z.of_nat i)) (seq 0 (Z.to_nat MAXU))
+     | Some l => flat_map (fun i => tget (ids s) i) l
+     end
   ++ lenZ (hbattery x) :: map (fun q => match search_user_raw s q with Ok v => v | Crash => -1 | Hang => -2 end) (hbattery x).
 
 (* ---------------------------------------------------------------- wire *)
@@ -281,13 +307,37 @@ Fixpoint chunks (fuel : nat) (l : list Z) : list (list Z) :=
   end.
 Definition ids_of (l : list Z) : list (list Z) := chunks (length l) l.
 
+(* op 24: a .PASSWDS of n records, the empty id everywhere except at the listed slots: n (slot id)* *)
+Fixpoint sparse_pairs (fuel : nat) (l : list Z) : option (list (Z * list Z)) :=
+  match fuel with
+  | O => None
+  | S f => match l with
+           | [] => Some []
+           | slot :: r => if (length r <? IDSZ)%nat then None
+                          else match sparse_pairs f (skipn IDSZ r) with
+                               | Some ps => Some ((slot, firstn IDSZ r) :: ps)
+                               | None => None
+                               end
+           end
+  end.
+Fixpoint sparse_build (fuel : nat) (i : Z) (m : tmap (list Z)) : list (list Z) :=
+  match fuel with O => [] | S f => tget m i :: sparse_build f (i + 1) m end.
+Definition sparse_file (n : Z) (b : list Z) : option (list (list Z)) :=
+  if (n <? 0) || (MAXU + 8 <? n) then None
+  else match sparse_pairs (S (length b)) b with
+       | Some ps => if forallb (fun p => (0 <=? fst p) && (fst p <? n)) ps
+                    then Some (sparse_build (Z.to_nat n) 0 (fold_left (fun m p => tset m (fst p) (snd p)) ps (tconst EMPTY_ID)))
+                    else None
+       | None => None
+       end.
+
 Definition ret (x : hst) (r : res (st * Z)) (extra : list Z) : option (hst * list Z) :=
   match r with
-  | Ok (s1, e) => Some (mkh s1 (hfile x) (hbattery x) (hbuckets x), (if e =? 0 then 0 else 3) :: e :: extra)
+  | Ok (s1, e) => Some (mkh s1 (hfile x) (hbattery x) (hbuckets x) (hslots x), (if e =? 0 then 0 else 3) :: e :: extra)
   | Crash => Some (x, 1 :: 0 :: extra)
   | Hang => Some (x, 2 :: 0 :: extra)
   end.
-Definition with_st (x : hst) (s : st) : hst := mkh s (hfile x) (hbattery x) (hbuckets x).
+Definition with_st (x : hst) (s : st) : hst := mkh s (hfile x) (hbattery x) (hbuckets x) (hslots x).
 
 (* one operation executed by process p on its view of the segment *)
 Definition apply_local (p : proc) (x : hst) (g : list Z) : option (hst * list Z) :=
@@ -312,7 +362,7 @@ Definition apply_local (p : proc) (x : hst) (g : list Z) : option (hst * list Z)
                  | Some id => Some (x, 0 :: 0 :: id)
                  | None => Some (x, 3 :: ERR_INVALID_UID :: EMPTY_ID)
                  end
-  | 20 :: b => Some (mkh s (ids_of b) (hbattery x) (hbuckets x), [0; 0])
+  | 20 :: b => Some (mkh s (ids_of b) (hbattery x) (hbuckets x) (hslots x), [0; 0])
   | [21] => match load_uhash_by p s (hfile x) with
             | Ok s1 => Some (with_st x s1, [0; 0])
             | Crash => Some (x, [1; 0])
@@ -320,7 +370,7 @@ Definition apply_local (p : proc) (x : hst) (g : list Z) : option (hst * list Z)
             end
   | [22] => Some (with_st x reset_st, [0; 0])
   | [23] => Some (with_st x (unload s), [0; 0])
-  | [25] => match attach (mkseg cache.SHM_VERSION cache.SHM_RAW_SZ s) with
+  | [25] => match attach (mkseg SHMVER SHMSZ s) with
             | Attached v => Some (x, 0 :: 0 :: lenZ (hbattery x)
                                    :: map (fun q => match search_user_raw v q with Ok u => u | Crash => -1 | Hang => -2 end) (hbattery x))
             | _ => Some (x, [3; 98; 0])
@@ -330,8 +380,14 @@ Definition apply_local (p : proc) (x : hst) (g : list Z) : option (hst * list Z)
                        | ErrShmVersion => Some (x, [3; 4])
                        | ErrShmSize => Some (x, [3; 5])
                        end
-  | 30 :: b => Some (mkh s (hfile x) (ids_of b) (hbuckets x), [0; 0])
-  | 31 :: b => Some (mkh s (hfile x) (hbattery x) b, [0; 0])
+  | 24 :: n :: b => match sparse_file n b with
+                     | Some f => Some (mkh s f (hbattery x) (hbuckets x) (hslots x), [0; 0])
+                     | None => None
+                     end
+  | 30 :: b => Some (mkh s (hfile x) (ids_of b) (hbuckets x) (hslots x), [0; 0])
+  | 31 :: b => Some (mkh s (hfile x) (hbattery x) b (hslots x), [0; 0])
+  | [32] => Some (mkh s (hfile x) (hbattery x) (hbuckets x) None, [0; 0])
+  | 32 :: b => if forallb in_range b then Some (mkh s (hfile x) (hbattery x) (hbuckets x) (Some b), [0; 0]) else None
   | _ => None
   end.
 
@@ -347,7 +403,7 @@ Definition apply_op (x : hst) (g : list Z) : option (hst * list Z) :=
   match g with
   | 29 :: mode :: g' =>
       if ((mode =? 0) || (mode =? 1)) && proc2_op g'
-      then match new_shm_existing (mode =? 1) (mkseg cache.SHM_VERSION cache.SHM_RAW_SZ (hs x)) with
+      then match new_shm_existing (mode =? 1) (mkseg SHMVER SHMSZ (hs x)) with
            | (p2, Attached v) => apply_local p2 (with_st x v) g'
            | _ => None
            end
@@ -370,11 +426,20 @@ Fixpoint run_wire (x : hst) (gs : list (list Z)) : option (list Z) :=
          [2] | id bytes         StringHashWithHashBits
          [3]                    constants
          [4]                    is the harness's first process the creator of the segment *)
-Definition run_case (args : list (list Z)) : list Z :=
+Definition run_cfg (args : list (list Z)) : list Z :=
   match args with
-  | [1] :: gs => match run_wire (mkh reset_st [] [] []) gs with Some t => ST_OK :: t | None => [ST_BADCASE] end
+  | [1] :: gs => match run_wire (mkh reset_st [] [] [] None) gs with Some t => ST_OK :: t | None => [ST_BADCASE] end
   | [[2]; b] => [ST_OK; uhash (fixlen IDSZ b)]
-  | [[3]] => [ST_OK; MAXU; HASHN; Z.of_nat IDSZ; cache.SHM_VERSION; cache.SHM_RAW_SZ; PREALLOC]
+  | [[3]] => [ST_OK; MAXU; HASHN; Z.of_nat IDSZ; SHMVER; SHMSZ; PREALLOC]
   | [[4]] => [ST_OK; if p_is_new creator then 1 else 0]
   | _ => [ST_BADCASE]
+  end.
+End Cfg.
+
+(* [11] | op | ...  and [13]: the same as [1] | .. and [3] for the production configuration (-tags docker); everything else is the default build *)
+Definition run_case (args : list (list Z)) : list Z :=
+  match args with
+  | [11] :: gs => @run_cfg K_docker ([1] :: gs)
+  | [[13]] => @run_cfg K_docker [[3]]
+  | _ => @run_cfg K_default args
   end.
